@@ -93,6 +93,7 @@ type RunDesc struct {
 	World     []ObjSpec `json:"world,omitempty"`
 	WorldReps []RepSpec `json:"world_reps,omitempty"`
 	Tasks     [][]Op    `json:"tasks"`
+	CrossCap  int       `json:"cross_cap,omitempty"` // C15: how many (key,result) pairs this run reports for the cross-process comparison (default 600)
 	// replay files only
 	Pair  *RunDesc `json:"pair,omitempty"`  // C15 cross-process findings: a second history, executed in its own process
 	Build string   `json:"build,omitempty"` // which build found it: "", "race", "race-stockpool"
